@@ -67,7 +67,7 @@ def r10a(ck, fb):
     dc = fb.bodies.get(CA + 'del_config')
     if dc:
         rk = util.mut_calls_on_field(dc, 'subscriber', re.escape(SB + 'remove_config_key') + '$')
-        sn = util.mut_calls_on_field(dc, 'subscriber', re.escape(SB + 'notify') + '$')
+        sn = util.mut_calls_on_field(dc, 'subscriber', re.escape(SB + 'notify') + '$', deep=1)
         ck.require(bool(rk) and bool(sn) and all(cfg.dominates_blocks(dc, {x.bb for x in sn}, r.bb) for r in rk), 'R10a', 'del_config:notify-before-forget', dc.where(),
                    'subscribers of a removed key are forgotten before they are notified')
 
